@@ -83,6 +83,143 @@ def jax_run(param):
     return {"pos": core.digest(s.pos), "samples": core.digest(s._samples), "key": core.digest(st.key)}
 
 
+def cl_cfm(param):
+    """The typical user model: correlated fields (many string keys, power-space
+    caches, nested operator sums) + minisanity report."""
+    import numpy as np
+    import nifty.cl as ift
+    sp = ift.RGSpace(8)
+    f1 = ift.SimpleCorrelatedField(sp, 0., (1., .1), (1., .3), (.1, .05), (1., .5), (-3., .5), prefix="s1")
+    f2 = ift.SimpleCorrelatedField(sp, 0., (1., .1), (.5, .2), None, None, (-2., .5), prefix="s2")
+    sig = f1.exp() + f2
+    rng = np.random.default_rng(param)
+    data = ift.makeField(sp, rng.normal(size=8) + 1.)
+    lh = ift.GaussianEnergy(data, inverse_covariance=ift.ScalingOperator(sp, 4., sampling_dtype=float)) @ sig
+    ic = ift.AbsDeltaEnergyController(1e-6, iteration_limit=10)
+    mini = ift.NewtonCG(ift.AbsDeltaEnergyController(1e-6, iteration_limit=3))
+    with ift.random.Context(3000 + param):
+        sl, mean = ift.optimize_kl(lh, 2, 2, mini, ic, output_directory=None, return_final_position=True,
+                                   plot_energy_history=False, plot_minisanity_history=False)
+        ms = ift.extra.minisanity(lh, sl, terminal_colors=False)
+    return {"samples": core.digest([core.canon(s) for s in sl.iterator()]), "mean": core.digest(core.canon(mean)),
+            "keys": core.digest(list(mean.keys())), "minisanity": core.digest(str(ms))}
+
+
+def _scratch():
+    import shutil
+    d = f"/dev/shm/verif-c21-{os.getpid()}"
+    shutil.rmtree(d, ignore_errors=True)
+    os.makedirs(d)
+    return d
+
+
+def cl_odir(param, strategy):
+    """Observation = the pickled results the driver leaves in its output directory."""
+    import pickle
+    import shutil
+    import numpy as np
+    import nifty.cl as ift
+    dom = ift.UnstructuredDomain(3)
+    a, b, c = (ift.FieldAdapter(dom, k) for k in ("alpha", "beta", "gamma"))
+    op = a * (0.3 * b).exp() + c
+    data = ift.makeField(dom, np.array([0.3, -1.2, 2.0]) + 0.01 * param)
+    lh = ift.GaussianEnergy(data, inverse_covariance=ift.ScalingOperator(dom, 4., sampling_dtype=float)) @ op
+    ic = ift.AbsDeltaEnergyController(1e-6, iteration_limit=10)
+    mini = ift.NewtonCG(ift.AbsDeltaEnergyController(1e-6, iteration_limit=3))
+    d = _scratch()
+    out = {}
+    try:
+        with ift.random.Context(4000 + param):
+            ift.optimize_kl(lh, 3, lambda i: 0 if i == 0 else 2, mini, ic, output_directory=d + "/out",
+                            save_strategy=strategy, plot_energy_history=False, plot_minisanity_history=False,
+                            fresh_stochasticity=lambda i: i != 2)
+        for root, _, names in sorted(os.walk(d)):
+            for nm in sorted(names):
+                with open(os.path.join(root, nm), "rb") as f:
+                    raw = f.read()
+                rel = os.path.join(root, nm)[len(d):]
+                if nm.endswith(".txt"):
+                    out[rel] = core.digest([l for l in raw.decode().splitlines() if not l.startswith("Current datetime")])
+                elif nm in ("last_finished_iteration", "nifty_random_state"):
+                    out[rel] = core.digest(raw)
+                else:
+                    out[rel] = core.digest(pickle.loads(raw))
+    finally:
+        shutil.rmtree(d, ignore_errors=True)
+    return out
+
+
+def jax_cfm(param):
+    import jax
+    jax.config.update("jax_enable_x64", True)
+    import jax.numpy as jnp
+    import numpy as np
+    from jax import random as jr
+    import nifty.re as jft
+    harness.quiet()
+    cfm = jft.CorrelatedFieldMaker("cf")
+    cfm.set_amplitude_total_offset(offset_mean=0., offset_std=(1., .1))
+    cfm.add_fluctuations((8,), distances=(1. / 8,), fluctuations=(1., .3), loglogavgslope=(-3., .5),
+                         flexibility=(1., .5), asperity=(.1, .05), prefix="ax1", non_parametric_kind="power")
+    cf = cfm.finalize()
+
+    class Sig(jft.Model):
+        def __init__(self):
+            self.cf = cf
+            super().__init__(init=cf.init)
+
+        def __call__(self, x):
+            return jnp.exp(self.cf(x))
+    d = jnp.asarray(np.random.default_rng(param).normal(size=8) + 1.)
+    lh = jft.Gaussian(d, noise_std_inv=lambda x: x / 0.5).amend(Sig())
+    k1, k2 = jr.split(jr.PRNGKey(param))
+    pos = jft.Vector(lh.init(k1)) * 0.1
+    s, st = jft.optimize_kl(
+        lh, pos, key=k2, n_total_iterations=2, n_samples=2,
+        draw_linear_kwargs=dict(cg_name=None, cg_kwargs=dict(absdelta=1e-8, maxiter=20)),
+        nonlinearly_update_kwargs=dict(minimize_kwargs=dict(name=None, xtol=1e-6, maxiter=3, cg_kwargs=dict(name=None))),
+        kl_kwargs=dict(minimize_kwargs=dict(name=None, xtol=1e-6, maxiter=4, cg_kwargs=dict(name=None))),
+        sample_mode="nonlinear_resample")
+    return {"pos": core.digest(s.pos), "samples": core.digest(s._samples), "key": core.digest(st.key),
+            "keys": core.digest(sorted(s.pos.tree.keys()))}
+
+
+def jax_odir(param):
+    """JAX driver with an output directory: observation = the pickled state file."""
+    import pickle
+    import shutil
+    import jax
+    jax.config.update("jax_enable_x64", True)
+    import jax.numpy as jnp
+    from jax import random as jr
+    import nifty.re as jft
+    harness.quiet()
+
+    def fwd(x):
+        return x["alpha"] * jnp.exp(0.3 * x["beta"]) + x["gamma"]
+    dom = {k: jft.ShapeWithDtype((3,), float) for k in ("alpha", "beta", "gamma")}
+    m = jft.Model(fwd, domain=dom)
+    lh = jft.Gaussian(jnp.array([0.3, -1.2, 2.0]) + 0.01 * param, noise_std_inv=lambda x: x / 0.5).amend(m)
+    k1, k2 = jr.split(jr.PRNGKey(param))
+    pos = jft.Vector(jft.random_like(k1, m.domain)) * 0.1
+    d = _scratch()
+    try:
+        jft.optimize_kl(
+            lh, pos, key=k2, n_total_iterations=3, n_samples=lambda i: 1 if i == 0 else 2, odir=d,
+            draw_linear_kwargs=dict(cg_name=None, cg_kwargs=dict(absdelta=1e-8, maxiter=20)),
+            nonlinearly_update_kwargs=dict(minimize_kwargs=dict(name=None, xtol=1e-6, maxiter=3, cg_kwargs=dict(name=None))),
+            kl_kwargs=dict(minimize_kwargs=dict(name=None, xtol=1e-6, maxiter=4, cg_kwargs=dict(name=None))),
+            sample_mode=lambda i: "linear_resample" if i < 2 else "nonlinear_update")
+        with open(d + "/last.pkl", "rb") as f:
+            s, st = pickle.load(f)
+        with open(d + "/minisanity.txt") as f:
+            ms = f.read()
+    finally:
+        shutil.rmtree(d, ignore_errors=True)
+    return {"pos": core.digest(s.pos), "samples": core.digest(s._samples), "keys": core.digest(s.keys),
+            "state": core.digest((st.nit, st.key, st.sample_state, st.minimization_state)), "minisanity": core.digest(ms)}
+
+
 def draws(param):
     import numpy as np
     import nifty.cl as ift
@@ -108,6 +245,11 @@ WORK = {
     "cl_multi_lh": lambda p: cl_multi_lh(p, False),
     "cl_multi_lh_geovi": lambda p: cl_multi_lh(p, True),
     "jax_vi": jax_run,
+    "cl_cfm": cl_cfm,
+    "cl_odir_latest": lambda p: cl_odir(p, "latest"),
+    "cl_odir_all": lambda p: cl_odir(p, "all"),
+    "jax_cfm": jax_cfm,
+    "jax_odir": jax_odir,
     "draws": draws,
 }
 
